@@ -40,6 +40,17 @@ func (m multiErr) Error() string {
 	return s
 }
 
+// fmtErr is a plain error that also formats itself (as errors with stack traces do): what fmt verbs print for it
+// is not its Error() text.
+type fmtErr struct{ msg string }
+
+func (e *fmtErr) Error() string { return e.msg }
+func (e *fmtErr) Format(f fmt.State, c rune) {
+	fmt.Fprintf(f, "FORMATTED<%s>+stack", e.msg)
+}
+func (e *fmtErr) String() string   { return "STRINGER<" + e.msg + ">" }
+func (e *fmtErr) GoString() string { return "GOSTRING<" + e.msg + ">" }
+
 // sameErr is identity of error values that also works for uncomparable dynamic types.
 func sameErr(a, b error) bool {
 	if a == nil || b == nil {
@@ -172,6 +183,8 @@ func buildChain(steps []ErrStep, nodes *[]*enode, excludedF1 *int) (*enode, *evi
 				n.err, n.kind, n.typeID, n.msg = &embApp{*thrift.NewApplicationException(s.TypeID, "inner "+msg), msg}, kForeign, s.TypeID, "outer("+msg+")"
 			case "uncmp":
 				n.err, n.kind = multiErr{errors.New(msg), io.EOF}, kPlain
+			case "fmt_plain":
+				n.err, n.kind = &fmtErr{msg}, kPlain
 			default:
 				n.err, n.kind = errors.New(msg), kPlain
 			}
@@ -390,7 +403,7 @@ var namedCodes = []int32{0, 1, 2, 3, 4, 5, 6, 7, 8, 9, 10, 11, -1, 0x7fffffff, -
 func genErrStep(t *rapid.T, leaf bool) ErrStep {
 	var s ErrStep
 	if leaf {
-		s.Op = rapid.SampledFrom([]string{"plain", "eof", "transport", "protocol", "protocol", "application", "foreign", "foreign", "uncmp", "emb_transport", "emb_app"}).Draw(t, "leaf")
+		s.Op = rapid.SampledFrom([]string{"plain", "eof", "transport", "protocol", "protocol", "application", "foreign", "foreign", "uncmp", "emb_transport", "emb_app", "fmt_plain"}).Draw(t, "leaf")
 	} else {
 		s.Op = rapid.SampledFrom([]string{"wrapf", "wrapsame", "pewrap", "pewrap", "pewrap", "prepend", "prepend", "prepend"}).Draw(t, "wrap")
 	}
@@ -461,7 +474,7 @@ func checkF1(c ErrChainCase, cv *cov) *evid.Violation {
 func init() { register("c18_prepend_f1", checkF1) }
 
 func TestC18_Random(t *testing.T) {
-	rec := evid.New("C18", "c18_random", "rapid: error chains of depth 1..5 from a grammar (leaves: errors.New, io.EOF, transport/protocol/application exceptions and a foreign type exposing TypeId, with any int32 type id incl. the named codes and empty/non-UTF-8/format-like texts; wrappers: fmt.Errorf %w, NewProtocolExceptionWithErr, PrependError with any prefix), a second chain and fresh leaves as errors.Is targets, plus exceptions built to have equal/unequal (type id, text) for every protocol node; oracle = kind table, type id, text = prefix+original, Unwrap identity, and a model of errors.Is; the class (empty prefix, foreign error with empty text) is excluded as known finding F1 and counted; non-trivial = chain of depth >= 2 mixing >= 2 kinds")
+	rec := evid.New("C18", "c18_random", "rapid: error chains of depth 1..5 from a grammar (leaves: errors.New, io.EOF, a plain error with its own fmt.Formatter/Stringer, transport/protocol/application exceptions and a foreign type exposing TypeId, with any int32 type id incl. the named codes and empty/non-UTF-8/format-like texts; wrappers: fmt.Errorf %w, NewProtocolExceptionWithErr, PrependError with any prefix), a second chain and fresh leaves as errors.Is targets, plus exceptions built to have equal/unequal (type id, text) for every protocol node; oracle = kind table, type id, text = prefix+original, Unwrap identity, and a model of errors.Is; the class (empty prefix, foreign error with empty text) is excluded as known finding F1 and counted; non-trivial = chain of depth >= 2 mixing >= 2 kinds")
 	defer rec.Flush()
 	runRapid(t, rec, "c18_err_chain", evid.Pick(150000, 1500000), genErrChainCase, checkErrChain)
 }
